@@ -103,8 +103,14 @@ def one_model(ctx, prog, script, rng):
         n = L + D + extra
         data = ref.make_data(names, n, rng, 'positive')
 
+        # spans whose labels include falsy ones (0, '') at the start, in the middle or at the end: an explicit
+        # start/end naming such a period is still an explicit request
+        span = rng.choice([range(100, 100 + n), range(0, n), range(-(n // 2), n - n // 2), range(-n + 1, 1),
+                           [''] + [f'p{i}' for i in range(1, n)], [f'p{i}' for i in range(n - 1)] + [0.0]])
+        ctx.seen('span_shapes', 'falsy-label' if any(not x for x in span) else 'plain')
+
         def fresh():
-            m = Rec(range(100, 100 + n))
+            m = Rec(span)
             for nm in names:
                 m.__dict__['_' + nm][:] = data[nm]
             m.__dict__['v_log'] = rec.install(m)
